@@ -391,3 +391,141 @@ Proof.
       symmetry. apply with_ref_same. exact Er.
     + flag_solve A2.
 Qed.
+
+(* ------------------------------------------------------------------ *)
+(* from a symbolic step to the invariant                               *)
+(* ------------------------------------------------------------------ *)
+Lemma WInv_hstep s0 s i f T K C wpend :
+  hstepG s0 s i f T K C -> WInv s0 wpend -> WInv s wpend.
+Proof.
+  intros (A1 & A2 & A3 & A4 & A5 & A6 & A7 & A8). apply WInv_fields; assumption.
+Qed.
+
+(* the closing status of handle [i] does not change *)
+Lemma LInvG_hstep s0 s pend wpend i f :
+  LInvG s0 pend wpend -> (i < length (hs s0))%nat ->
+  hstepG s0 s i f (ts s) (clock s) (closing s0) ->
+  now (ts s) <= clock s ->
+  TI (ts s) -> length (tms (ts s)) = length (tms (ts s0)) ->
+  (forall j, j <> i -> get (ts s) j = get (ts s0) j) ->
+  (forall j, In j (ready (ts s)) -> In j (ready (ts s0))) ->
+  h_kind (f (hget s0 i)) = h_kind (hget s0 i) ->
+  tsync1 (f (hget s0 i)) (get (ts s) i) ->
+  hok (f (hget s0 i)) ->
+  h_closing (f (hget s0 i)) = h_closing (hget s0 i) ->
+  h_closed (f (hget s0 i)) = h_closed (hget s0 i) ->
+  LInvG s pend wpend.
+Proof.
+  intros [HI WI] Hi Hst Hclk HT Hlen Hfr Hrd Hk Hsy Hok Hcg Hcd.
+  split; [|eapply WInv_hstep; eauto].
+  destruct Hst as (A1 & A2 & A3 & A4 & A5 & A6 & A7 & A8).
+  eapply HInv_step with (s := s0) (i := i) (f := f) (pend := pend); eauto.
+  - rewrite A5. apply (hi_nodup _ _ HI).
+  - intros j. rewrite A5. destruct (Nat.eqb_spec j i) as [->|Hne]; [|reflexivity].
+    rewrite Hcg, Hcd. rewrite (hi_cl _ _ HI i). tauto.
+Qed.
+
+(* neither timers nor clock change *)
+Lemma LInvG_hstep_plain s0 s pend wpend i f :
+  LInvG s0 pend wpend -> (i < length (hs s0))%nat ->
+  hstepG s0 s i f (ts s0) (clock s0) (closing s0) ->
+  h_kind (f (hget s0 i)) = h_kind (hget s0 i) ->
+  (is_timer (hget s0 i) = true -> h_active (f (hget s0 i)) = h_active (hget s0 i)) ->
+  hok (f (hget s0 i)) ->
+  h_closing (f (hget s0 i)) = h_closing (hget s0 i) ->
+  h_closed (f (hget s0 i)) = h_closed (hget s0 i) ->
+  LInvG s pend wpend.
+Proof.
+  intros Hinv Hi Hst Hk Hact Hok Hcg Hcd.
+  pose proof Hst as (A1 & A2 & A3 & A4 & A5 & A6 & A7 & A8).
+  pose proof Hinv as [HI _].
+  eapply LInvG_hstep; eauto; rewrite ?A3, ?A4; auto.
+  - apply (hi_clock _ _ HI).
+  - apply (hi_ti _ _ HI).
+  - destruct (hi_sync _ _ HI i Hi) as (S1 & S2 & S3).
+    unfold tsync1, is_timer in *. rewrite Hk, Hcg. split; [|split; auto].
+    rewrite S1. destruct (hkind_eqb (h_kind (hget s0 i)) KTimer); [|reflexivity].
+    rewrite Hact by reflexivity. reflexivity.
+Qed.
+
+(* uv_close: handle [i] becomes closing and is pushed on the closing list *)
+Lemma LInvG_hstep_close s0 s pend wpend i f :
+  LInvG s0 pend wpend -> (i < length (hs s0))%nat ->
+  hstepG s0 s i f (ts s) (clock s) (i :: closing s0) ->
+  now (ts s) <= clock s ->
+  TI (ts s) -> length (tms (ts s)) = length (tms (ts s0)) ->
+  (forall j, j <> i -> get (ts s) j = get (ts s0) j) ->
+  (forall j, In j (ready (ts s)) -> In j (ready (ts s0))) ->
+  h_kind (f (hget s0 i)) = h_kind (hget s0 i) ->
+  tsync1 (f (hget s0 i)) (get (ts s) i) ->
+  hok (f (hget s0 i)) ->
+  h_closing (hget s0 i) = false ->
+  h_closing (f (hget s0 i)) = true ->
+  h_closed (f (hget s0 i)) = false ->
+  LInvG s pend wpend.
+Proof.
+  intros [HI WI] Hi Hst Hclk HT Hlen Hfr Hrd Hk Hsy Hok Hc0 Hcg Hcd.
+  split; [|eapply WInv_hstep; eauto].
+  destruct Hst as (A1 & A2 & A3 & A4 & A5 & A6 & A7 & A8).
+  assert (Hnin : ~ In i (closing s0 ++ pend)).
+  { intros Hin. apply (hi_cl _ _ HI) in Hin. destruct Hin as (_ & Hin & _). congruence. }
+  eapply HInv_step with (s := s0) (i := i) (f := f) (pend := pend); eauto.
+  - rewrite A5. simpl. constructor; [exact Hnin|apply (hi_nodup _ _ HI)].
+  - intros j. rewrite A5. simpl. destruct (Nat.eqb_spec j i) as [->|Hne].
+    + split; auto.
+    + split; [intros [E|Hin]; [congruence|exact Hin]|intros Hin; right; exact Hin].
+Qed.
+
+(* uv__finish_close: handle [i], head of the detached batch, becomes closed *)
+Lemma LInvG_hstep_closed s0 s rest wpend i f :
+  LInvG s0 (i :: rest) wpend ->
+  hstepG s0 s i f (ts s0) (clock s0) (closing s0) ->
+  h_kind (f (hget s0 i)) = h_kind (hget s0 i) ->
+  h_active (f (hget s0 i)) = h_active (hget s0 i) ->
+  h_closing (f (hget s0 i)) = true ->
+  h_closed (f (hget s0 i)) = true ->
+  LInvG s rest wpend.
+Proof.
+  intros [HI WI] Hst Hk Hact Hcg Hcd.
+  split; [|eapply WInv_hstep; eauto].
+  pose proof Hst as (A1 & A2 & A3 & A4 & A5 & A6 & A7 & A8).
+  assert (Hin : In i (closing s0 ++ i :: rest)) by (apply in_or_app; right; left; reflexivity).
+  apply (hi_cl _ _ HI) in Hin. destruct Hin as (Hi & Hc0 & Hd0).
+  destruct (hi_hok _ _ HI i Hi) as (Hina & _). specialize (Hina Hc0).
+  pose proof (hi_nodup _ _ HI) as Hnd.
+  eapply HInv_step with (s := s0) (i := i) (f := f) (pend := i :: rest); eauto;
+    rewrite ?A3, ?A4, ?A5; auto.
+  - apply (hi_clock _ _ HI).
+  - apply (hi_ti _ _ HI).
+  - destruct (hi_sync _ _ HI i Hi) as (S1 & S2 & S3).
+    unfold tsync1, is_timer in *. rewrite Hk, Hact, Hcg. split; [exact S1|split; auto].
+  - split; [intros _; congruence|intros _; exact Hcg].
+  - apply NoDup_remove_1 in Hnd. exact Hnd.
+  - intros j. destruct (Nat.eqb_spec j i) as [->|Hne].
+    + split; [|intros (_ & Hx); congruence].
+      intros Hx. apply NoDup_remove_2 in Hnd. contradiction.
+    + rewrite !in_app_iff. simpl. split; [tauto|]. intros [Hx|[Hx|Hx]]; auto. congruence.
+Qed.
+
+(* an update of handle [i] that keeps kind and the four flags, any [i] *)
+Definition flags_same (f : hrec -> hrec) : Prop :=
+  forall h, h_kind (f h) = h_kind h /\ h_active (f h) = h_active h /\ h_ref (f h) = h_ref h /\
+            h_closing (f h) = h_closing h /\ h_closed (f h) = h_closed h.
+
+Lemma LInvG_upd_h_inert s pend wpend i f :
+  flags_same f -> LInvG s pend wpend -> LInvG (upd_h s i f) pend wpend.
+Proof.
+  intros Hf Hinv. destruct (Nat.lt_ge_cases i (length (hs s))) as [Hi|Hi].
+  - destruct (Hf (hget s i)) as (F1 & F2 & F3 & F4 & F5).
+    eapply LInvG_hstep_plain with (i := i) (f := fun h => f h); eauto.
+    + apply (hstep_upd_h s s i (fun h => h) f); [|apply hstep_refl].
+      unfold p_ar. rewrite F2, F3. reflexivity.
+    + unfold hok. rewrite F2, F4, F5. destruct Hinv as [HI _]. apply (hi_hok _ _ HI i Hi).
+  - eapply LInvG_core; [|exact Hinv]. unfold upd_h, hcore; cbn.
+    rewrite upd_overflow by exact Hi. reflexivity.
+Qed.
+
+Lemma flags_same_hascb b : flags_same (with_hascb b).
+Proof. intros h; cbn; auto. Qed.
+Lemma flags_same_pending b : flags_same (with_pending b).
+Proof. intros h; cbn; auto. Qed.
